@@ -12,6 +12,24 @@ A_SIM = [
 ]
 
 CHECKS = {
+    "C01": {
+        "level": "exploration",
+        "rule": "rapid stateful generation over drawn resource graphs (models/collections, shared children, cycles, self references, error child, soft references, data values, one query resource): 1-3 clients with drawn protocol versions subscribe/unsubscribe/get/call-with-resource, answers in any order, mutate-and-announce incl. reference changes, custom/delete/reaccess/query events, silent mutations + system.reset; EOH epilogue answers everything and resets dirty resources; oracle: every client copy (built only from frames) equals the state the reference service last announced, per protocol-version encoding. Non-trivial = a state event reached the gateway while a client held the resource AND (answers out of request order | reference changed | reset/query derived events | resource shared by >=2 clients); distinct by script hash",
+        "assumptions": A_SIM,
+        "parts": [sim(300, 5000)],
+    },
+    "C02": {
+        "level": "exploration",
+        "rule": "same generator as C01 weighted towards graphs and unsubscribe/reference-removal while parents load; oracle: reference client with reachability-based retention checks after every frame: no dangling non-soft reference, no event for a resource not held, change only on models, add/remove only on collections with index in bounds, successful subscribe/resource response leaves data. Non-trivial = a resource was handed to the client again after the client dropped it, or dropped while a request whose response later carried it was outstanding, or a reference-carrying event arrived after a drop; distinct by script hash",
+        "assumptions": A_SIM + ["clients follow the protocol: they unsubscribe only what was confirmed to them"],
+        "parts": [sim(300, 5000)],
+    },
+    "C03": {
+        "level": "exploration",
+        "rule": "C01 generator with dense sequence-numbered custom events around queue/unqueue causes (loading references, access re-checks, query-event locks, reset re-fetches); oracle: per client/rid/holding episode the custom sequence numbers form a contiguous run of the sequence delivered to the gateway, no event before the hand-over, model change events never repeated back-to-back, and the episode open at EOH reaches the last delivered event. Non-trivial = an episode received >=3 custom events; distinct by script hash",
+        "assumptions": A_SIM,
+        "parts": [sim(300, 5000)],
+    },
     "C07": {
         "level": "exploration",
         "rule": "rapid stateful generation of request mixes (1-2 connections, subscribe/get/unsubscribe/call/auth/new/ill-formed methods, every outcome and order of the dependent access/get/call answers, events, deletes, revocations), end-of-history epilogue answering everything; oracle: reference client counts responses per id (never two, never unknown, error objects with string code/message) and at quiescence every id on an open connection has exactly one. Non-trivial = >=2 requests for one rid overlapped, or an unsubscribe/unsubscribe event/delete hit a rid with a pending request; distinct by hash of the executed script",
@@ -29,6 +47,12 @@ CHECKS = {
 SIM_NOTE = "trusted: the harness (mock mq, reference client/service, quiescence detector) and rapid; exploration never proves absence; goroutine interleavings inside the gateway are sampled only"
 
 META = {
+    "C01": {"engine": "sim", "design_ref": "6 C01", "technique": "stateful property-based testing (rapid) with a reference service and reference client; oracle = model equality at quiescence",
+            "text": "generated multi-client histories over generated resource graphs; at exact quiescence each client's accumulated copy equals the reference service's last announced state under the negotiated encoding.", "note": SIM_NOTE},
+    "C02": {"engine": "sim", "design_ref": "6 C02", "technique": "stateful property-based testing (rapid); per-frame applicability invariant of a reachability-based reference client",
+            "text": "every frame of every generated history is applied to a protocol-following reference client that asserts applicability (no dangling references, no stray or wrong-kind events, indexes in bounds).", "note": SIM_NOTE},
+    "C03": {"engine": "sim", "design_ref": "6 C03", "technique": "stateful property-based testing (rapid); history invariant over sequence-numbered events per holding episode",
+            "text": "sequence-numbered custom events are injected around every queue/unqueue cause; per holding episode they must form a contiguous, ordered, duplicate-free run that reaches the last delivered event.", "note": SIM_NOTE},
     "C07": {"engine": "sim", "design_ref": "6 C07", "technique": "stateful property-based testing (rapid) against a reference-client response counter",
             "text": "generated request mixes with overlapping requests per resource and every dependent-answer order; at exact quiescence every id has exactly one well-formed response. Exploration: thousands of distinct overlapping histories per run, no proof of absence.",
             "note": SIM_NOTE},
